@@ -76,7 +76,7 @@ def structural_actions(kind):
     if kind == 'orderPoll':
         out.append({'action': 'missing_field', 'field': 'certificate', 'label': 'missing:certificate'})
     if kind == 'cert':
-        for b in ('garbage', 'empty', 'truncated', 'truncated-tail', 'html', 'reversed-chain', 'rotated-chain', 'leaf-bad-pubkey'):
+        for b in ('garbage', 'empty', 'truncated', 'truncated-tail', 'html', 'reversed-chain', 'rotated-chain', 'leaf-bad-pubkey', 'leaf-negated-point', 'leaf-other-key'):
             out.append({'action': 'cert_body', 'body': b, 'label': 'cert-body:' + b})
     if kind not in ('directory', 'newNonce', 'newAccount'):
         out.append({'action': 'forget_account', 'label': 'forget-account'})
